@@ -3,6 +3,7 @@ package kit
 import (
 	"encoding/json"
 	"fmt"
+	"sync"
 
 	"github.com/jsightapi/jsight-schema-core/fs"
 	"github.com/jsightapi/jsight-schema-core/reader"
@@ -70,7 +71,14 @@ func (j *JApi) ToJsonIndent() ([]byte, error) {
 	return j.Catalog().ToJsonIndent()
 }
 
+// openAPIMu serialises conversion to OpenAPI: the converters of jsight-schema-core
+// marshal through a package-level buffer pool which is not safe for concurrent use.
+var openAPIMu sync.Mutex
+
 func (j *JApi) ToOpenAPIJson() ([]byte, error) {
+	openAPIMu.Lock()
+	defer openAPIMu.Unlock()
+
 	o, err := openapi.NewOpenAPI(j.Catalog())
 	if err != nil {
 		return nil, err
@@ -79,6 +87,9 @@ func (j *JApi) ToOpenAPIJson() ([]byte, error) {
 }
 
 func (j *JApi) ToOpenAPIJsonIndent() ([]byte, error) {
+	openAPIMu.Lock()
+	defer openAPIMu.Unlock()
+
 	o, err := openapi.NewOpenAPI(j.Catalog())
 	if err != nil {
 		return nil, err
